@@ -30,8 +30,8 @@ Definition epilogue (x : prog) : prog := PSeq x (PSeq (PSleep 0 1) (PCheckpoint 
 (* 285 programs *)
 Definition bounded_programs : list prog := map epilogue (items1 ++ items2).
 (* no controller, or one task.cancel() at the front / back of the ready queue of loop iteration 1..12: 25 schedules *)
-Definition bounded_positions : list (list (nat * bool)) :=
-  [] :: flat_map (fun n => [[(n, true)]; [(n, false)]]) (seq 1 12).
+Definition bounded_positions : list (list (nat * bool * nat)) :=
+  [] :: flat_map (fun n => [[(n, true, 0)]; [(n, false, 0)]]) (seq 1 12).
 (* the three states of the code: as found, with the repair of F1, with the repairs of F1 and F2 *)
 Definition bounded_flags : list (bool * bool) := [(false, true); (true, true); (true, false)].
 
@@ -58,5 +58,5 @@ Definition no_active_scope (st : state) : bool := forallb (fun s => negb (s_host
 (* cancel() was never called on any scope during the run *)
 Definition never_called (st : state) : bool := forallb (fun s => negb (s_called s)) (scopes st).
 
-Definition bounded_run (fx fb : bool) (p : prog) (pos : list (nat * bool)) : state :=
+Definition bounded_run (fx fb : bool) (p : prog) (pos : list (nat * bool * nat)) : state :=
   run_steps 3000 (init fx fb p [] pos 2).
